@@ -556,6 +556,9 @@ func (m *Model) ruleKEYSPACE(r *Results) {
 				}
 				key := m.declName(s.Fn) + " / user SQL envelope"
 				pos := m.instrPos(s.Call)
+				if s.XformHoles > 0 {
+					r.bad(rule, m.declName(s.Fn)+" / caller's statement reaches the engine verbatim", pos, "the caller's statement text goes through %s before it is executed: rewriting SQL as plain text (folding whitespace, replacing substrings) also rewrites string literals and comments inside it, so the query that runs is not the query that was asked", s.XformBy)
+				}
 				if len(st.With) != 1 {
 					r.bad(rule, key, pos, "statement with caller-supplied text is not wrapped in exactly one keyspace CTE (found %d)", len(st.With))
 					continue
